@@ -713,10 +713,13 @@ def r8(prog, run):
 
             def transfer(g, nid, st):
                 n = g.nodes[nid]
-                if n['k'] != 'call' or n.get('op'):
+                if n['k'] != 'call' or (n.get('op') and n.get('op') != '()'):
                     return None
                 out = st
-                for c in prog.callee_fns(g, n):
+                callees = list(prog.callee_fns(g, n))
+                if n.get('op') == '()' and n.get('opargs'):
+                    callees += prog.lambda_fns(g, g.nodes[g.resolve(n['opargs'][0])])         # a local lambda invoked by name
+                for c in callees:
                     if c.entry is None:
                         continue
                     if writes_error(c) and 'E' not in out:
